@@ -4,10 +4,12 @@ import (
 	"context"
 	"encoding/json"
 	"fmt"
+	"net"
 	"regexp"
 	"runtime"
 	"strings"
 	"sync"
+	"sync/atomic"
 	"time"
 
 	"github.com/hprose/hprose-golang/v3/rpc/core"
@@ -186,6 +188,72 @@ type c10Case struct {
 // (plugins/timeout) and the client's own time-out, over a real service. Every call returns by its
 // bound; once the functions have ended no goroutine is left behind on either side; the client and the
 // service stay usable.
+// c10FlakyConn: the k-th write on the client's connection fails with a temporary error (a write deadline
+// of a wrapper installed with OnConnect, say)
+type c10TempErr struct{}
+
+func (c10TempErr) Error() string   { return "temporary write error (injected)" }
+func (c10TempErr) Temporary() bool { return true }
+func (c10TempErr) Timeout() bool   { return true }
+
+type c10FlakyConn struct {
+	net.Conn
+	n      *int32
+	failAt int32
+}
+
+func (c *c10FlakyConn) Write(b []byte) (int, error) {
+	if atomic.AddInt32(c.n, 1) == c.failAt {
+		return 0, c10TempErr{}
+	}
+	return c.Conn.Write(b)
+}
+
+// c10WriteError: a write of the client fails with a temporary error in the middle of a request (after the
+// header, or before it): the call whose request it was returns with an error at once, the calls after it are
+// answered (over a new connection if the old one is given up)
+func c10WriteError(t *tr.Writer, id int, c c10Case) {
+	svc := core.NewService()
+	svc.AddFunction(func(p string) string { return p }, "echo")
+	env, err := rpcenv.Start(c.Kind, svc, false)
+	if err != nil {
+		t.Emit(tr.Rec{"ev": "setup-failed", "err": err.Error()})
+		return
+	}
+	defer env.Close()
+	client := core.NewClient(env.URL)
+	client.Timeout = 3 * time.Second
+	defer client.Abort()
+	var writes int32
+	failAt := int32(4) // the body of the second request
+	if c.Fault == "write-error-header" {
+		failAt = 5 // the header of the third
+	}
+	if st, ok := client.GetTransport("socket").(*socket.Transport); ok {
+		st.OnConnect = func(conn net.Conn) net.Conn { return &c10FlakyConn{Conn: conn, n: &writes, failAt: failAt} }
+	}
+	for n := 1; n <= 5; n++ {
+		t.Emit(tr.Rec{"ev": "callB", "c": 1, "n": n})
+		t0 := time.Now()
+		res, err := client.Invoke("echo", []interface{}{muxPayload(1, n)})
+		r := muxRet{kind: "resp", rc: -1, rn: -1}
+		if err != nil {
+			r = muxRet{kind: "err", err: err.Error()}
+		} else if len(res) == 1 {
+			if s, ok := res[0].(string); ok {
+				if rc, rn, ok := muxParse([]byte(s)); ok {
+					r.rc, r.rn = rc, rn
+					t.Emit(tr.Rec{"ev": "answer", "c": rc, "n": rn})
+				}
+			}
+		}
+		// every call is back well before the client's time-out: with its response, or - the one whose
+		// request was cut - with the write error
+		t.Emit(tr.Rec{"ev": "ret", "c": 1, "n": n, "kind": r.kind, "rc": r.rc, "rn": r.rn, "ms": int(time.Since(t0) / time.Millisecond), "bound": 1500, "err": r.err})
+	}
+	t.Emit(tr.Rec{"ev": "quiesce", "pending": 0, "leak": 0, "pooled": 0})
+}
+
 func c10Slow(t *tr.Writer, id int, c c10Case) {
 	svc := core.NewService()
 	fnMs, execMs, clientMs := 60, 20, 0
@@ -333,6 +401,10 @@ func c10Run(t *tr.Writer, id int, c c10Case) {
 	t.Reset(id, tr.Rec{"kind": c.Kind, "fault": c.Fault, "mustfail": false, "input": c})
 	if c.Fault == "reverse-giveup" {
 		c10ReverseGiveup(t, c)
+		return
+	}
+	if strings.HasPrefix(c.Fault, "write-error") {
+		c10WriteError(t, id, c)
 		return
 	}
 	if c.Fault == "exec-timeout" || c.Fault == "client-timeout" || c.Fault == "abort-many" || c.Fault == "ctx-deadline" {
@@ -682,6 +754,15 @@ func runC10(a Args) tr.Summary {
 		c := c10Case{Kind: kind, Fault: "ctx-deadline"}
 		c10Run(t, id, c)
 		nontrivial[fmt.Sprint(c)] = true
+	}
+	// a write of the client fails with a temporary error
+	for _, kind := range []string{"tcp", "unix"} {
+		for _, f := range []string{"write-error-body", "write-error-header"} {
+			id++
+			c := c10Case{Kind: kind, Fault: f}
+			c10Run(t, id, c)
+			nontrivial[fmt.Sprint(c)] = true
+		}
 	}
 	for _, kind := range []string{"mock", "tcp"} {
 		id++
